@@ -41,7 +41,7 @@ AT0 = {"F1C": 4.0, "F2C": 0.0, "F4C": 0.0, "F1N": 2.0, "F2N": 3.0, "F3N": 8.0 / 
 # known-finding classes: accuracy loss through cancellation at large argument
 DOC1 = {"F1C", "F2C", "F3C", "F4C", "F1N", "F2N", "F3N", "F4N", "G3", "G4"}
 DOCQ = {"f_PS", "F1", "F1t", "F2", "F3"}
-LARGE = {"f_CSl": 1e4, "f_sferm": 1e8, "F2": 1e8, "F1": 1e8}
+LARGE = {}     # (the large-argument cancellation findings were repaired in /repo; no class is excused any more)
 
 
 def key_for(fn, x):
